@@ -162,6 +162,38 @@ def run(ctx):
                                             'after_history': [g[:400] for g in got], 'fresh': [g[:400] for g in ref]})
         histories.append((ops, out))
     hist.compare_histories(ctx, histories)
+    # "the MasterConfig defaults in force at the time of the call": an object created under one MasterConfig and used under
+    # another fills missing directions from the one in force NOW (unless it was configured with directions of its own)
+    import pytrs
+    from pytrs import TRS
+    from pytrs.parser.config.master_config import MasterConfig
+    old = (MasterConfig.default_ns, MasterConfig.default_ew)
+    try:
+        for i in range(ctx.budget(12, 200)):
+            r = rng.fork(900000 + i)
+            mc1 = (r.choice('ns'), r.choice('ew'))
+            mc2 = ({'n': 's', 's': 'n'}[mc1[0]], {'e': 'w', 'w': 'e'}[mc1[1]]) if r.chance(2, 3) else (r.choice('ns'), r.choice('ew'))
+            MasterConfig.default_ns, MasterConfig.default_ew = mc1
+            d = pytrs.PLSSDesc(r.choice(['T154N-R97W Sec 14: NE/4, Sec 15: W/2', 'NE/4 of Sec 14, T154N-R97W', 'T154-R97 Sec 1: Lots 1 - 3']),
+                               parse_qq=r.chance(1, 2))
+            t0 = pytrs.Tract('NE/4', trs='154n97w14')
+            o0 = TRS('154n97w14')
+            MasterConfig.default_ns, MasterConfig.default_ew = mc2
+            twp, rge, sec = r.range(1, 200), r.range(1, 200), r.range(1, 36)
+            want = f'{twp}{mc2[0]}{rge}{mc2[1]}{sec:02d}'
+            got = {}
+            for name, o in [('tract of a PLSSDesc', d.tracts[0]), ('stand-alone Tract', t0), ('TRS', o0)]:
+                o.set_twprgesec(twp, rge, sec)
+                got[name] = o.trs
+            got['Tract.from_twprgesec'] = pytrs.Tract.from_twprgesec('x', twp, rge, sec).trs
+            bad = {k: v for k, v in got.items() if v != want}
+            if bad:
+                rep.violation('failing-input', {'created_under_MasterConfig': list(mc1), 'called_under_MasterConfig': list(mc2),
+                                                'call': f'set_twprgesec({twp}, {rge}, {sec})', 'expected': want, 'observed': bad,
+                                                'why': 'missing directions were not filled from the MasterConfig defaults in force at the time of the call'})
+            rep.count()
+    finally:
+        MasterConfig.default_ns, MasterConfig.default_ew = old
 
 
 def replay(payload):
